@@ -74,6 +74,18 @@ def check(st):
                         want = 0.0 if out['disc144'] < 0 else float(np.sqrt(out['disc144'] / 144.0 * eps * E))
                         if not close(got, want, 1e-12) and not (want == 0.0 and got == 0.0):
                             v.append(('P_RAM of a hysteresis is not sqrt((S_a + k S_m) eps_a E) / zero rule', {'S_a': inp['sa'], 'S_m': inp['sm'], 'epsilon_a': eps, 'E': E, 'MatGroupFKM': grp, 'R_m': rm}, want, got))
+                # the guideline's mean-stress factor for other material groups / tensile strengths, incl. those with a NEGATIVE mean stress
+                # sensitivity (steel below R_m = 286 MPa): k = M (M + 2) for S_m >= 0, M/3 (M/3 + 2) for S_m < 0, P_RAM = 0 if S_a + k S_m < 0
+                for grp, rm, aM, bM in (('Steel', 200.0, 0.35, -0.1), ('Steel', 120.0, 0.35, -0.1), ('SteelCast', 400.0, 0.35, 0.05), ('Al_wrought', 30.0, 1.0, -0.04), ('Al_wrought', 450.0, 1.0, -0.04)):
+                    M = aM * 1e-3 * rm + bM
+                    k = M * (M + 2) if inp['sm'] >= 0 else M / 3 * (M / 3 + 2)
+                    disc = inp['sa'] + k * inp['sm']
+                    eps, E = 3.0 / 2048, 206000.0
+                    coll = pd.DataFrame({'S_a': [float(inp['sa'])], 'S_m': [float(inp['sm'])], 'epsilon_a': [eps]})
+                    got = float(P_RAM(coll, pd.Series({'MatGroupFKM': grp, 'R_m': rm, 'E': E})).collective['P_RAM'].iloc[0])
+                    want = float(np.sqrt(disc * eps * E)) if disc >= 0 else 0.0
+                    if not (close(got, want, 1e-12) or (want == 0.0 and got == 0.0)):
+                        v.append(('P_RAM of a hysteresis is not sqrt((S_a + k S_m) eps_a E) / zero rule', {'S_a': inp['sa'], 'S_m': inp['sm'], 'epsilon_a': eps, 'E': E, 'MatGroupFKM': grp, 'R_m': rm, 'M_sigma': M}, want, got))
             elif part == 'accumulate':
                 rows = inp['rows']
                 P = [Z * 2.0 ** (-e // 2) if e <= 0 else Z * 2.0 ** (-e) for e, c, r in rows]
